@@ -291,6 +291,16 @@ class Fn:
                 if ta == "prop": a, ta = self.as_bool(a, ta, e), "bool"
                 parts.append(a); tys.append(ta)
             return "(" + ", ".join(parts) + ")", ("tuple", tys)
+        if isinstance(n, ast.List):
+            if not n.elts:
+                fail(n, "empty list literal (its element type is not known)")
+            parts, tys = [], []
+            for e in n.elts:
+                a, ta = self.expr(e, env, ind)
+                parts.append(a); tys.append(ta)
+            if any(t != tys[0] for t in tys) or tys[0] not in ("int", "dec", "time", "delta"):
+                fail(n, f"list literal with elements of types {tys} (one of int / Decimal / time is needed)")
+            return "[" + ", ".join(parts) + "]", ("list", tys[0])
         if isinstance(n, ast.ListComp):
             if len(n.generators) != 1 or n.generators[0].ifs or n.generators[0].is_async or not isinstance(n.generators[0].target, ast.Name):
                 fail(n, "list comprehension with several generators, a filter or a tuple target")
@@ -313,6 +323,13 @@ class Fn:
                 if tk != "str":
                     fail(n, "dict subscript with a non-str key")
                 return self.effect(ind, f"Py.lookup {d} {k}", td[1])
+            if isinstance(td, tuple) and td[0] == "list":
+                if isinstance(n.slice, ast.Slice):
+                    fail(n, "slice of a list")
+                k, tk = self.expr(n.slice, env, ind)
+                if tk != "int":
+                    fail(n, f"list index of type {tk}")
+                return self.effect(ind, f"Py.index {d} {k}", td[1])       # IndexError when out of range; negative indices count from the end
             fail(n, f"subscript of a {td}")
         fail(n, f"expression {type(n).__name__}")
 
@@ -433,10 +450,16 @@ class Fn:
 
     def call(self, n, env, ind):
         f = n.func
+        if isinstance(f, ast.Name) and f.id in self.unit.records and f.id not in env:
+            return self.record_call(n, env, ind)
         if n.keywords and not (isinstance(f, ast.Attribute) and f.attr == "quantize"):
             fail(n, "keyword arguments")
         fname = None
-        if isinstance(f, ast.Name):
+        if isinstance(f, ast.Name) and f.id in env:
+            fail(n, f"call of the local variable '{f.id}'")
+        if isinstance(f, ast.Name) and (self.unit.cur_parent, f.id) in self.unit.nested_alias:
+            fname = self.unit.nested_alias[(self.unit.cur_parent, f.id)]      # a function defined inside the function being translated (or a sibling)
+        elif isinstance(f, ast.Name):
             fname = f.id
         elif isinstance(f, ast.Attribute) and isinstance(f.value, ast.Name) and f.value.id == self.unit.cur_cls:
             fname = f.attr       # ClassName.static_method(...)
@@ -444,7 +467,7 @@ class Fn:
                 and self.unit.method_alias.get((self.unit.cur_cls, f.attr)) in self.unit.sigs:
             fname = self.unit.method_alias[(self.unit.cur_cls, f.attr)]       # self.method(...) of the same class, itself translated
         # ---- builtins
-        if isinstance(f, ast.Name) and fname not in self.unit.sigs:
+        if isinstance(f, ast.Name) and fname not in self.unit.sigs and fname not in self.unit.by_src:
             args = n.args
             if fname == "Decimal":
                 if len(args) != 1: fail(n, "Decimal() with other than one argument")
@@ -486,6 +509,12 @@ class Fn:
                 # CPython: min(a, b) = b if b < a else a ; max(a, b) = b if b > a else a
                 rel = "<" if fname == "min" else ">"
                 return f"(if {b} {rel} {a} then {b} else {a})", ta
+            if fname == "sorted":
+                if len(args) != 1: fail(n, "sorted() with other than one argument")
+                l, tl = self.expr(args[0], env, ind)
+                if tl != ("list", "int"):
+                    fail(n, f"sorted() of a {tl} (only lists of ints)")
+                return f"(Py.sorted {l})", tl        # a new list: ints compare by value, so every correct sort gives this list
             if fname == "sum":
                 return self.sum_call(n, env, ind)
             if fname == "isinstance" and len(args) == 2 and isinstance(args[0], ast.Name) and getattr(args[1], "id", None) in ("Decimal", "int"):
@@ -508,36 +537,131 @@ class Fn:
                 if isinstance(td, tuple) and td[0] == "dict":
                     return d, ("keys", td[1])
             fail(n, f"method call .{f.attr}()")
-        if fname not in self.unit.sigs:
+        if fname not in self.unit.sigs and fname not in self.unit.by_src:
             fail(n, f"call of '{fname}', which is not translated")
-        sig = self.unit.sigs[fname]
-        if sig.ret is None:
-            fail(n, f"call of '{fname}', whose translation failed")
+        r = self.translated_call(n, fname, env, ind, as_statement=False)
+        return r
+
+    def translated_call(self, n, fname, env, ind, as_statement):
+        """a call of a translated function.  The arguments are evaluated first (left to right); among several translations of the same source
+        function (the same code read under different argument types, `as` in the signature table) the first whose parameter types fit is taken.
+        `obj` parameters (objects reachable only through the read table) take a plain name and pass no value: what the callee reads from them
+        the caller must read too — the callee's read `pos.lower_tick` with `pos := position_info` is the caller's read `position_info.lower_tick`."""
+        cands = list(self.unit.by_src.get(fname, []))
+        if fname in self.unit.sigs and fname not in cands:
+            cands.insert(0, fname)
+        args = []
+        for arg in n.args:
+            if isinstance(arg, ast.Name) and env.get(arg.id) == "obj":
+                args.append((arg.id, "obj"))
+                continue
+            a, ta = self.expr(arg, env, ind)
+            if ta == "prop": a, ta = self.as_bool(a, ta, arg), "bool"
+            args.append((a, ta))
+        sig, why = None, ""
+        for c in cands:
+            sg = self.unit.sigs[c]
+            if sg.ret is None:
+                why = why or f"call of '{c}', whose translation failed"
+                continue
+            if len(args) != len(sg.params):
+                why = why or f"call of {c} with {len(args)} arguments (expects {len(sg.params)})"
+                continue
+            bad = [(pn, pt, ta) for (a, ta), (pn, pt) in zip(args, sg.params) if ta != pt]
+            if bad:
+                pn, pt, ta = bad[0]
+                why = why or f"argument '{pn}' of {c}: a {ta} is passed where the translated signature has {pt}"
+                continue
+            sig = sg
+            break
+        if sig is None:
+            fail(n, why or f"call of '{fname}', which is not translated")
+        fname = sig.name
+        objmap = {pn: a for (a, ta), (pn, pt) in zip(args, sig.params) if pt == "obj"}
+        terms = [a for (a, ta) in args if ta != "obj"]
+
+        def caller_text(key):
+            if not objmap:
+                return key
+            tree = ast.parse(key, mode="eval")
+            for m in ast.walk(tree):
+                if isinstance(m, ast.Name) and m.id in objmap:
+                    m.id = objmap[m.id]
+            return ast.unparse(tree)
         read_args = []
+        state_vars = []
         if getattr(sig, "reads", None):
             # the callee reads object attributes / data rows: the caller reads the same ones (same object, same bar) and hands them on
-            if getattr(sig, "state", None):
-                fail(n, f"call of '{fname}', which updates object fields")
+            st_keys = getattr(sig, "state", None) or {}
+            if st_keys and not (as_statement and getattr(sig, "state_only", False)):
+                fail(n, f"call of '{fname}', which updates object fields" + ("" if not as_statement else " and returns a value"))
             table = {nm: ty for nm, ty in self.unit.cur_reads.values()}
-            for nm, ty in sig.reads:
-                if table.get(nm) != ty:
+            for key, nm, ty in sig.read_keys:
+                if objmap:
+                    got = self.unit.cur_reads.get(caller_text(key))
+                    if got is None or got[1] != ty:
+                        fail(n, f"call of '{fname}': its input `{key}` (here `{caller_text(key)}`) is not an input of the calling function's read table")
+                    nm = got[0]
+                elif table.get(nm) != ty:
                     fail(n, f"call of '{fname}': its input '{nm}' is not an input of the calling function's read table")
                 self.used_reads[nm] = ty
                 read_args.append(nm)
-        if len(n.args) != len(sig.params):
-            fail(n, f"call of {fname} with {len(n.args)} arguments (expects {len(sig.params)})")
-        terms = []
-        for arg, (pn, pt) in zip(n.args, sig.params):
-            a, ta = self.expr(arg, env, ind)
-            if ta == "prop": a, ta = self.as_bool(a, ta, arg), "bool"
-            if ta != pt:
-                fail(n, f"argument '{pn}' of {fname}: a {ta} is passed where the translated signature has {pt}")
-            terms.append(a)
+            for key, (nm, ty) in st_keys.items():
+                got = (self.unit.cur_state or {}).get(caller_text(key))
+                if got is None or got[1] != ty:
+                    fail(n, f"call of '{fname}': the field `{key}` it updates (here `{caller_text(key)}`) is not a field of the calling function's state table")
+                state_vars.append(got[0])
+                read_args.append(got[0])
         cxs = (self.cx() + " ") if sig.uses_cx else ""
         if sig.uses_pow:
             self.uses_pow = True
             cxs += "dpow "
-        return self.effect(ind, f"{sig.lean_name} {cxs}" + " ".join(read_args + terms), sig.ret)
+        if getattr(sig, "uses_fuel", False):
+            fail(n, f"call of '{fname}', which contains a while loop (fuel is not threaded through calls)")
+        action = f"{sig.lean_name} {cxs}" + " ".join(read_args + terms)
+        if as_statement:
+            if state_vars:
+                for v in state_vars:
+                    self.reassigned.add(v)
+                pat = state_vars[0] if len(state_vars) == 1 else "(" + ", ".join(state_vars) + ")"
+                self.emit(ind, f"{pat} ← {action}")
+            elif sig.ret == "unit":
+                self.emit(ind, f"let _ ← {action}")
+            else:
+                fail(n, f"the result of '{fname}' is discarded")
+            return None
+        return self.effect(ind, action, sig.ret)
+
+    def record_call(self, n, env, ind):
+        """`PositionInfo(lower_tick=a, upper_tick=b)`: a NamedTuple of the source (fields checked against its class definition) is the tuple of its fields"""
+        name = n.func.id
+        fields = self.unit.records[name]
+        if isinstance(fields, str):
+            fail(n, fields)
+        given = {}
+        for (fn_, ft), arg in zip(fields, n.args):
+            given[fn_] = arg
+        if len(n.args) > len(fields):
+            fail(n, f"{name}() with too many arguments")
+        for kw in n.keywords:
+            if kw.arg is None or kw.arg in given or kw.arg not in dict(fields):
+                fail(n, f"{name}() with an unknown or repeated field {kw.arg}")
+            given[kw.arg] = kw.value
+        if len(given) != len(fields):
+            fail(n, f"{name}() without all of its fields (defaults are not modelled)")
+        # Python evaluates positional arguments, then keywords, in source order
+        order = list(n.args) + [kw.value for kw in n.keywords]
+        vals = {}
+        for arg in order:
+            a, ta = self.expr(arg, env, ind)
+            vals[id(arg)] = (a, ta)
+        parts, tys = [], []
+        for fn_, ft in fields:
+            a, ta = vals[id(given[fn_])]
+            if ta != ft:
+                fail(n, f"field {fn_} of {name}: a {ta} where the record table has {ft}")
+            parts.append(a); tys.append(ft)
+        return "(" + ", ".join(parts) + ")", ("tuple", tys)
 
     def quantize(self, n, env, ind):
         """`x.quantize(Decimal(f"1e{k}") | Decimal(<int or "literal">) [, rounding=decimal.ROUND_*])`  ↦  `Py.quantize mode x k`"""
@@ -650,11 +774,26 @@ class Fn:
                 continue  # a local import binds names; using one of them fails at the use
             if isinstance(s, ast.Pass):
                 continue
+            emitted_before = emitted
             emitted = True
             if isinstance(s, ast.Return):
                 if s.value is None:
                     fail(s, "bare return (None)")
-                a, ta = self.expr(s.value, env, ind)
+                w = getattr(self, "want_ret", None)
+                if isinstance(w, tuple) and w[0] == "tuple" and isinstance(s.value, ast.Tuple) and len(s.value.elts) == len(w[1]):
+                    # the unified return type is a tuple some of whose components are an int on one path and a Decimal on another
+                    parts = []
+                    for e, wt in zip(s.value.elts, w[1]):
+                        a, ta = self.expr(e, env, ind)
+                        if ta == "prop": a, ta = self.as_bool(a, ta, s), "bool"
+                        if wt == "dec0" and ta in ("int", "dec", "dec0"):
+                            a, ta = (self.as_dec(a, ta, s) if ta == "int" else a), "dec0"
+                        if ta != wt:
+                            fail(s, f"return statements of different types ({w}, component {ta})")
+                        parts.append(a)
+                    a, ta = "(" + ", ".join(parts) + ")", w
+                else:
+                    a, ta = self.expr(s.value, env, ind)
                 if ta == "prop": a, ta = self.as_bool(a, ta, s), "bool"
                 a, ta = self.coerce_ret(a, ta, s)
                 self.set_ret(ta, s)
@@ -737,10 +876,80 @@ class Fn:
             if isinstance(s, ast.While):
                 self.while_loop(s, env, ind)
                 continue
+            if isinstance(s, ast.FunctionDef):
+                if (self.unit.cur_parent, s.name) in self.unit.nested_alias and s.name in {d.name for d in self.unit.cur_nested_ok}:
+                    emitted = emitted_before          # translated on its own (see `nested_in` in the signature table); the layout was checked
+                    continue
+                fail(s, f"nested function '{s.name}' (not in the signature table, or not defined at the top of the enclosing function)")
+            if isinstance(s, ast.Expr) and isinstance(s.value, ast.Call):
+                self.call_statement(s.value, env, ind)
+                continue
             fail(s, f"statement {type(s).__name__}")
         if not emitted:
             self.emit(ind, "pure ()")
         return env, False
+
+    def call_statement(self, c, env, ind):
+        """an expression statement that is a call: `xs.sort()` on a local list of ints; a translated procedure; a translated function that only
+        updates the object fields of the state table (the caller's fields are re-assigned from its result)"""
+        f = c.func
+        if isinstance(f, ast.Attribute) and f.attr == "sort" and isinstance(f.value, ast.Name):
+            if c.args or c.keywords:
+                fail(c, ".sort() with arguments")
+            nm = f.value.id
+            if env.get(nm) != ("list", "int"):
+                fail(c, f".sort() of a {env.get(nm)} (only local lists of ints)")
+            self.check_unaliased_list(nm, c)
+            self.reassigned.add(nm)
+            self.emit(ind, f"{nm} := Py.sorted {nm}")
+            return
+        if c.keywords:
+            fail(c, "keyword arguments")
+        fname = None
+        if isinstance(f, ast.Name) and f.id in env:
+            fail(c, f"call of the local variable '{f.id}'")
+        if isinstance(f, ast.Name) and (self.unit.cur_parent, f.id) in self.unit.nested_alias:
+            fname = self.unit.nested_alias[(self.unit.cur_parent, f.id)]
+        elif isinstance(f, ast.Name):
+            fname = f.id
+        elif isinstance(f, ast.Attribute) and isinstance(f.value, ast.Name) and f.value.id == self.unit.cur_cls:
+            fname = f.attr
+        elif isinstance(f, ast.Attribute) and isinstance(f.value, ast.Name) and f.value.id == "self" and self.unit.cur_cls \
+                and self.unit.method_alias.get((self.unit.cur_cls, f.attr)) in self.unit.sigs:
+            fname = self.unit.method_alias[(self.unit.cur_cls, f.attr)]
+        if fname is None or (fname not in self.unit.sigs and fname not in self.unit.by_src):
+            fail(c, f"expression statement: call of '{ast.unparse(f)}', which is not translated")
+        self.translated_call(c, fname, env, ind, as_statement=True)
+
+    def check_unaliased_list(self, nm, node):
+        """`xs.sort()` mutates the list object: sound as a re-assignment of the variable only if no other name can hold the same object.  Required:
+        `xs` is a local (not a parameter / read), every binding of it is a fresh list (literal, comprehension, `sorted(…)`), and it is used only in
+        `xs[i]`, `for … in xs`, `… in xs`, `sorted(xs)`, `max(xs)`, `xs.sort()`"""
+        if nm in dict(self.params):
+            fail(node, f".sort() of the parameter '{nm}' (the caller's list would change)")
+        parents = {}
+        for m in ast.walk(self.fdef):
+            for ch in ast.iter_child_nodes(m):
+                parents[ch] = m
+        for m in ast.walk(self.fdef):
+            if not (isinstance(m, ast.Name) and m.id == nm):
+                continue
+            par = parents.get(m)
+            if isinstance(m.ctx, ast.Store):
+                ok = isinstance(par, ast.Assign) and len(par.targets) == 1 and par.targets[0] is m and (
+                    isinstance(par.value, (ast.List, ast.ListComp))
+                    or (isinstance(par.value, ast.Call) and isinstance(par.value.func, ast.Name) and par.value.func.id == "sorted"))
+                if not ok:
+                    fail(m, f"'{nm}' is sorted in place, so every binding of it must be a fresh list (literal, comprehension or sorted())")
+                continue
+            ok = (isinstance(par, ast.Subscript) and par.value is m) \
+                or (isinstance(par, ast.For) and par.iter is m) \
+                or (isinstance(par, ast.comprehension) and par.iter is m) \
+                or (isinstance(par, ast.Compare) and m in par.comparators and all(isinstance(o, (ast.In, ast.NotIn)) for o in par.ops)) \
+                or (isinstance(par, ast.Call) and isinstance(par.func, ast.Name) and par.func.id in ("sorted", "max", "len") and par.args == [m]) \
+                or (isinstance(par, ast.Attribute) and par.attr == "sort" and par.value is m and isinstance(parents.get(par), ast.Call))
+            if not ok:
+                fail(m, f"'{nm}' is sorted in place and used where another name could come to hold the same list (line {getattr(m, 'lineno', '?')})")
 
     def while_loop(self, s, env, ind):
         """`while c: body` ↦ `vars ← Py.whileFuel (fun vars => do …; pure (decide c)) (fun vars => do body; pure vars) fuel vars`: the variables the
@@ -910,6 +1119,19 @@ class Fn:
                     self.want_ret = "dec0"     # int on one path, Decimal on another: the number (see README: type `num`)
                 elif kinds and kinds <= {"dec", "xdec"}:
                     self.want_ret = "xdec"
+                elif all(isinstance(t, tuple) and t[0] == "tuple" for t in probe.ret_types) and len({len(t[1]) for t in probe.ret_types}) == 1:
+                    # tuples that differ only in components that are an int on one path and a Decimal on another (`return 0, 0` / `return a0, a1`)
+                    uni = []
+                    for comp in zip(*[t[1] for t in probe.ret_types]):
+                        if all(c == comp[0] for c in comp):
+                            uni.append(comp[0])
+                        elif all(isinstance(c, str) for c in comp) and set(comp) <= {"int", "dec", "dec0"}:
+                            uni.append("dec0")
+                        else:
+                            uni = None
+                            break
+                    if uni is not None:
+                        self.want_ret = ("tuple", uni)
         env = {}
         for p, t in self.params:
             env[p] = t
@@ -918,11 +1140,14 @@ class Fn:
         env_out, term = self.block(self.fdef.body, env, 1)
         if not term:
             st = self.unit.cur_state
-            if st and not self.ret_types:
-                # a method that only updates its fields and falls off the end: the fields on exit
-                names = [v for v, _ in st.values()]
+            fields_ty = None
+            if st:
                 tys = [t for _, t in st.values()]
-                self.set_ret(tys[0] if len(tys) == 1 else ("tuple", tys), self.fdef)
+                fields_ty = tys[0] if len(tys) == 1 else ("tuple", tys)
+            if st and all(rt == fields_ty for rt in self.ret_types):
+                # a method that only updates its fields (bare `return`s at most) and falls off the end: the fields on exit
+                names = [v for v, _ in st.values()]
+                self.set_ret(fields_ty, self.fdef)
                 self.emit(1, "return " + (names[0] if len(names) == 1 else "(" + ", ".join(names) + ")"))
             elif not self.ret_types and not st:
                 self.set_ret("unit", self.fdef)       # a procedure: returns None on every path
@@ -948,8 +1173,17 @@ class _StateRewriter(ast.NodeTransformer):
             return ast.copy_location(ast.Name(id=self.state[key][0], ctx=node.ctx), node)
         return self.generic_visit(node)
 
+    def visit_FunctionDef(self, node):
+        if getattr(self, "top", None) is None:
+            self.top = node
+            return self.generic_visit(node)
+        return node            # a function defined inside: translated on its own, with its own table
+
     def visit_Return(self, node):
         names = [ast.Name(id=v, ctx=ast.Load()) for v, _ in self.state.values()]
+        if node.value is None:            # bare `return` of a function that updates fields: the fields on exit
+            node.value = names[0] if len(names) == 1 else ast.Tuple(elts=names, ctx=ast.Load())
+            return node
         if isinstance(node.value, ast.Name) and node.value.id == "self":
             node.value = names[0] if len(names) == 1 else ast.Tuple(elts=names, ctx=ast.Load())
             return node
@@ -962,7 +1196,7 @@ class _StateRewriter(ast.NodeTransformer):
 class Unit:
     """one Python source file (optionally one class of static methods) → one generated Lean file"""
 
-    def __init__(self, module, src, funcs, cls=None, consts=(), prefix="", reads=None, state=None, allow_defaults=False):
+    def __init__(self, module, src, funcs, cls=None, consts=(), prefix="", reads=None, state=None, allow_defaults=False, records=None):
         self.module, self.src, self.funcs, self.cls, self.const_names, self.prefix = module, src, funcs, cls, consts, prefix
         # state: {exact source text of an attribute of self: (variable, type)} — an object field the method reads AND writes.  The field becomes
         # a leading parameter (its value on entry) that the body may re-assign; `return self` returns the fields' values on exit, in the
@@ -976,10 +1210,80 @@ class Unit:
         self.reads = reads or {}
         self.auto_consts = {}
         self.cur_reads, self.cur_cls, self.cur_state, self.cur_opts = self.reads, self.cls, self.state, {}
+        # records: {NamedTuple class name: (source file, [(field, type)])} — `Name(field=e, …)` builds the tuple of the fields; the field list is
+        # checked against the class definition in the source on every run (a changed field list makes every use a ShapeError)
+        self.record_specs = records or {}
+        self.records = {}
+        self.cur_parent, self.nested_alias, self.cur_nested_ok, self.by_src = None, {}, (), {}
         self.method_alias = {}
         self.uses = []           # other units whose translated functions may be called (their generated module is imported)
         self.sigs = {}
         self.const_values = {}
+
+    def check_records(self):
+        for name, (src, fields) in self.record_specs.items():
+            try:
+                with open(os.path.join(REPO, src)) as f:
+                    tree = ast.parse(f.read())
+                cdef = [n for n in tree.body if isinstance(n, ast.ClassDef) and n.name == name]
+                if len(cdef) != 1:
+                    raise ShapeError(f"class {name} not found (once) in {src}")
+                cdef = cdef[0]
+                if [ast.unparse(b) for b in cdef.bases] not in (["NamedTuple"], ["typing.NamedTuple"]) or cdef.decorator_list:
+                    raise ShapeError(f"class {name} is not a plain NamedTuple")
+                got = []
+                for m in cdef.body:
+                    if isinstance(m, ast.AnnAssign) and isinstance(m.target, ast.Name):
+                        if m.value is not None:
+                            raise ShapeError(f"field {m.target.id} of {name} has a default")
+                        got.append((m.target.id, ANN.get(getattr(m.annotation, "id", None))))
+                    elif isinstance(m, ast.Expr) and isinstance(m.value, ast.Constant) and isinstance(m.value.value, str):
+                        continue
+                    elif isinstance(m, ast.FunctionDef) and m.name in ("__new__", "__init__", "_make", "_replace"):
+                        raise ShapeError(f"class {name} overrides {m.name}")
+                if got != [(fn_, ft) for fn_, ft in fields]:
+                    raise ShapeError(f"fields of {name} in {src} are {got}, the record table says {fields}")
+                self.records[name] = list(fields)
+            except (ShapeError, OSError, SyntaxError) as e:
+                self.records[name] = f"record {name}: {e}"
+
+    def check_nested_layout(self, fdef, parent_name):
+        """functions defined inside `fdef` must be direct children of its body, precede every other statement (so each exists whenever one of them
+        or the body runs), be in the signature table, and their names must not be rebound; returns the accepted FunctionDef nodes"""
+        inner = [m for m in ast.walk(fdef) if isinstance(m, (ast.FunctionDef, ast.AsyncFunctionDef, ast.Lambda, ast.ClassDef)) and m is not fdef]
+        if not inner:
+            return ()
+        ok, seen_stmt = [], False
+        for st in fdef.body:
+            if isinstance(st, ast.Expr) and isinstance(st.value, ast.Constant) and isinstance(st.value.value, str):
+                continue
+            if isinstance(st, ast.FunctionDef):
+                if seen_stmt:
+                    fail(st, f"nested function '{st.name}' is defined after other statements of '{parent_name}'")
+                if (parent_name, st.name) not in self.nested_alias:
+                    fail(st, f"nested function '{st.name}' of '{parent_name}' is not in the signature table")
+                if st.decorator_list:
+                    fail(st, f"decorated nested function '{st.name}'")
+                ok.append(st)
+            else:
+                seen_stmt = True
+        names = [st.name for st in ok]
+        if len(set(names)) != len(names):
+            fail(fdef, "a nested function is defined twice")
+        for m in inner:
+            if m not in ok and not any(m is not o and m in ast.walk(o) for o in ok):
+                fail(m, f"{type(m).__name__} nested inside '{parent_name}' other than a function defined at the top of its body")
+        for o in ok:
+            if any(isinstance(m, (ast.FunctionDef, ast.AsyncFunctionDef, ast.Lambda, ast.ClassDef)) and m is not o for m in ast.walk(o)):
+                fail(o, f"nested function '{o.name}' itself defines functions")
+        for m in ast.walk(fdef):
+            if isinstance(m, ast.Name) and m.id in names and not isinstance(m.ctx, ast.Load):
+                fail(m, f"the name of the nested function '{m.id}' is re-assigned")
+            if isinstance(m, (ast.Global, ast.Nonlocal)):
+                fail(m, "global / nonlocal declaration")
+            if isinstance(m, ast.arg) and m.arg in names:
+                fail(fdef, f"a parameter is named like the nested function '{m.arg}'")
+        return tuple(ok)
 
     def find(self, tree, name, cls=None):
         body = tree.body
@@ -1078,7 +1382,18 @@ class Unit:
         # an entry of `funcs` is (name, {param: type}) or (name, {param: type}, opts): opts may give this function its own class ("cls"),
         # read table ("reads"), fields ("state"), generated name ("as") and switches ("return_in_for")
         entries = [(f[0], f[1], (f[2] if len(f) > 2 else {})) for f in self.funcs]
-        self.method_alias = {(o.get("cls", self.cls), n): o.get("as", n) for n, pt, o in entries}
+        self.method_alias = {(o.get("cls", self.cls), n): o.get("as", n) for n, pt, o in entries if not o.get("nested_in")}
+        # nested_in: the entry is a function defined inside another one (a closure that reaches the enclosing function's objects through the same read /
+        # state tables); by_src: the translations of one source function under different argument types (the call picks the one that fits)
+        self.nested_alias = {(o["nested_in"], n): o.get("as", n) for n, pt, o in entries if o.get("nested_in")}
+        for u in self.uses:
+            for k, v in u.by_src.items():
+                self.by_src.setdefault(k, [])
+                self.by_src[k] += [x for x in v if x not in self.by_src[k]]
+        for n, pt, o in entries:
+            if not o.get("nested_in"):
+                self.by_src.setdefault(n, []).append(o.get("as", n))
+        self.check_records()
         self.funcs = [(o.get("as", n), pt) for n, pt, o in entries]
         for (n, pt, o) in entries:
             key = o.get("as", n)
@@ -1088,8 +1403,18 @@ class Unit:
             name = opts.get("as", src_name)
             sig = self.sigs[name]
             self.cur_cls, self.cur_reads, self.cur_state, self.cur_opts = opts.get("cls", self.cls), opts.get("reads", self.reads), opts.get("state", self.state), opts
+            self.cur_parent, self.cur_nested_ok = opts.get("nested_in") or src_name, ()
             try:
-                fdef, body = self.find(tree, src_name, self.cur_cls)
+                if opts.get("nested_in"):
+                    pdef, body = self.find(tree, opts["nested_in"], self.cur_cls)
+                    inner = [d for d in self.check_nested_layout(pdef, opts["nested_in"]) if d.name == src_name]
+                    if not inner:
+                        raise ShapeError(f"no function '{src_name}' is defined at the top of '{opts['nested_in']}'")
+                    fdef = inner[0]
+                else:
+                    fdef, body = self.find(tree, src_name, self.cur_cls)
+                    self.cur_nested_ok = self.check_nested_layout(fdef, src_name)
+                orig_fdef = fdef
                 if not consts and self.const_names:
                     consts = self.read_consts(body)
                     consts.update(EXTERNAL_CONSTS)
@@ -1106,7 +1431,7 @@ class Unit:
                     fail(fdef, f"parameters {[x.arg for x in a.args]} differ from the translator's signature table {list(ptypes)}")
                 for x in a.args:
                     an = getattr(x.annotation, "id", None)
-                    if x.arg in ptypes and an in ANN and ANN[an] != ptypes[x.arg]:
+                    if x.arg in ptypes and an in ANN and ANN[an] != ptypes[x.arg] and x.arg not in opts.get("override_ann", ()):
                         fail(fdef, f"parameter {x.arg} is annotated {an}, the signature table says {ptypes[x.arg]}")
                 for d in fdef.decorator_list:
                     if getattr(d, "id", None) != "staticmethod":
@@ -1118,10 +1443,15 @@ class Unit:
                 lines, ret, uses_cx, uses_pow = fn.translate()
                 sig.ret, sig.uses_cx, sig.uses_pow = ret, uses_cx, uses_pow
                 sig.reads = [(nm, ty) for nm, ty in self.cur_reads.values() if nm in fn.used_reads] + list(self.cur_state.values())
+                sig.read_keys = [(key, nm, ty) for key, (nm, ty) in self.cur_reads.items() if nm in fn.used_reads]
                 sig.state = dict(self.cur_state)
+                sig.uses_fuel = fn.uses_fuel
+                own = [m for m in ast.walk(orig_fdef) if isinstance(m, ast.Return)
+                       and not any(m in ast.walk(d) for d in self.cur_nested_ok)]
+                sig.state_only = bool(self.cur_state) and all(m.value is None or (isinstance(m.value, ast.Name) and m.value.id == "self") for m in own)
                 binders = ("(cx : NumCtx) " if uses_cx else "") + ("(dpow : Rat → Nat → Rat) " if uses_pow else "") + ("(fuel : Nat) " if fn.uses_fuel else "") \
                     + "".join(f"({nm} : {lean_ty(ty)}) " for nm, ty in sig.reads) + " ".join(f"({p} : {lean_ty(t)})" for p, t in sig.params if t != "obj")
-                head = f"/-- `{self.src}` line {fdef.lineno}: `{(self.cur_cls + '.') if self.cur_cls else ''}{src_name}` -/\ndef {sig.lean_name} {binders} : M ({lean_ty(ret)}) := do"
+                head = f"/-- `{self.src}` line {fdef.lineno}: `{(self.cur_cls + '.') if self.cur_cls else ''}{(opts['nested_in'] + '.') if opts.get('nested_in') else ''}{src_name}` -/\ndef {sig.lean_name} {binders} : M ({lean_ty(ret)}) := do"
                 defs.append(head + "\n" + "\n".join(lines))
             except ShapeError as e:
                 sig.ret = None
@@ -1138,10 +1468,23 @@ class Unit:
         return text, failures
 
 
-EXTERNAL_CONSTS = {
-    # demeter/_typing.py: DECIMAL_0 = Decimal(0)
-    "DECIMAL_0": ("(0 : Rat)", "dec"),
-}
+def _external_consts():
+    """demeter/_typing.py: `DECIMAL_0 = Decimal(0)`, `DECIMAL_1 = Decimal(1)` — read from the source (module-level, assigned once); a name that is
+    not found there is simply unknown to the functions that use it"""
+    out = {}
+    try:
+        with open(os.path.join(REPO, "demeter", "_typing.py")) as f:
+            tree = ast.parse(f.read())
+        lits = Unit("_", "demeter/_typing.py", []).literal_constants(tree)
+    except (OSError, SyntaxError):
+        return out
+    for name in ("DECIMAL_0", "DECIMAL_1"):
+        if name in lits and lits[name][1] == "dec":
+            out[name] = lits[name]
+    return out
+
+
+EXTERNAL_CONSTS = _external_consts()
 
 I, D, B, S, T, F = "int", "dec", "bool", "str", "tok", "frame"
 DD = ("dict", "dec")
@@ -1206,12 +1549,38 @@ UNISWAP_HELPER = Unit("UniswapHelper", "demeter/uniswap/helper.py", [
     ("_to_x96", {"sqrt_price": D}),
     ("tick_to_sqrt_price_x96", {"tick": I}),
     ("from_atomic_unit", {"atomic_unit_amount": I, "decimal": I}),
+    # the same function read with a Decimal amount: the annotation says int, but the pool data loader (`load_uni_v3_data`: converters `to_decimal`)
+    # fills inAmount0/1 with Decimals, which is what update_fee passes; `int(x)` then truncates.  `override_ann` lifts the annotation check for it
+    ("from_atomic_unit", {"atomic_unit_amount": D, "decimal": I}, {"as": "from_atomic_unit_dec", "override_ann": ("atomic_unit_amount",)}),
     ("get_swap_value", {"swap_from_token_val": D, "swap_to_token_val": D, "fee_rate": D, "final_ratio": D}),
     ("get_swap_value_with_part_balance_used", {"swap_from_token_val": D, "swap_to_token_val": D, "total_val_after": D,
                                                "fee_rate": D, "final_ratio": D}),
 ], consts=("Q96",), prefix="uni_")
 UNISWAP_HELPER.uses = [UNITS[0]]
 UNITS.append(UNISWAP_HELPER)
+
+
+_UC_POOL = {"pool.token0.decimal": ("decimal0", I), "pool.token1.decimal": ("decimal1", I)}
+_UC_FEE_READS = {"position.liquidity": ("liquidity", I), "state.currentLiquidity": ("current_liquidity", D),
+                 "state.inAmount0": ("in_amount0", D), "state.inAmount1": ("in_amount1", D),
+                 "pool.token0.decimal": ("decimal0", I), "pool.token1.decimal": ("decimal1", I), "pool.fee_rate": ("fee_rate", D),
+                 "pos.lower_tick": ("lower_tick", I), "pos.upper_tick": ("upper_tick", I), "state.closeTick": ("close_tick", I)}
+_UC_FEE_STATE = {"position.pending_amount0": ("pending_amount0", D), "position.pending_amount1": ("pending_amount1", D)}
+_UC_FEE_OBJS = {"last_tick": I, "pool": "obj", "pos": "obj", "position": "obj", "state": "obj"}
+UNISWAP_CORE = Unit("UniswapCore", "demeter/uniswap/core.py", [
+    ("new_position", {"pool": "obj", "token0_amount": D, "token1_amount": D, "lower_tick": I, "upper_tick": I, "sqrt_price_x96": I}, {"reads": _UC_POOL}),
+    ("get_token_amounts", {"pool": "obj", "pos": "obj", "sqrt_price_x96": I, "liquidity": I},
+     {"reads": dict(_UC_POOL, **{"pos.lower_tick": ("lower_tick", I), "pos.upper_tick": ("upper_tick", I)})}),
+    ("close_position", {"pool": "obj", "position_info": "obj", "liquidity": I, "sqrt_price_x96": I},
+     {"reads": dict(_UC_POOL, **{"position_info.lower_tick": ("lower_tick", I), "position_info.upper_tick": ("upper_tick", I)})}),
+    # update_fee and the two functions defined inside it (closures over pool / pos / position / state: same read and state tables)
+    ("in_range", {"tick": I}, {"nested_in": "update_fee", "as": "update_fee_in_range", "reads": _UC_FEE_READS}),
+    ("calc_amounts", {"weight": D}, {"nested_in": "update_fee", "as": "update_fee_calc_amounts", "reads": _UC_FEE_READS, "state": _UC_FEE_STATE}),
+    ("update_fee", dict(_UC_FEE_OBJS), {"reads": _UC_FEE_READS, "state": _UC_FEE_STATE}),
+], cls="V3CoreLib", prefix="unicore_",
+    records={"PositionInfo": ("demeter/uniswap/_typing.py", [("lower_tick", I), ("upper_tick", I)])})
+UNISWAP_CORE.uses = [UNITS[0], UNISWAP_HELPER]
+UNITS.append(UNISWAP_CORE)
 
 
 BROKER_TYPING = Unit("BrokerTyping", "demeter/broker/_typing.py", [
